@@ -351,7 +351,7 @@ static void run_case(int k, const std::string & line)
    const bool stress_mode = (head[0].size() > 1)&&(head[0][0] == 'X');
    // heads WC / WS: WebSocketMessageIOGateway pair after the handshake, client->server (masked frames) or
    // server->client, each end with a slave MessageIOGateway; Messages as for F
-   const bool ws_mode = (head[0] == "WC")||(head[0] == "WS");
+   const bool ws_mode = (head[0] == "WC")||(head[0] == "WS")||(head[0] == "WR");   // WR: like WC, but the (masked) client frames are injected with x: ops
    const char kind = head[0].empty() ? '?' : (ws_mode ? 'F' : head[0][(packet_mode||stress_mode) ? 1 : 0]);
    std::ostringstream o, orc;
    {
@@ -363,7 +363,7 @@ static void run_case(int k, const std::string & line)
       ScriptPacketIO * rpio = new ScriptPacketIO(&packets, 1400); DataIORef rpref(rpio);
       AbstractMessageIOGatewayRef sgw, rgw;
       uint32 minc = 0;
-      bool wsClientSends = (head[0] == "WC"), wsT = true, wsF = false;
+      bool wsClientSends = (head[0] == "WC")||(head[0] == "WR"), wsT = true, wsF = false;
       StressTestParserProxyDataIO * sio = NULL;
       if (ws_mode)
       {
@@ -397,7 +397,7 @@ static void run_case(int k, const std::string & line)
       else if (kind == 'S') {sgw.SetRef(new SLIPFramedDataMessageIOGateway); rgw.SetRef(new SLIPFramedDataMessageIOGateway);}
       else {fprintf(stderr, "bad head [%s]\n", line.c_str()); exit(2);}
       // gateways whose wire format is not (yet) modelled in Coq run for the end-to-end oracle only
-      const bool oracle_only = (packet_mode)||(stress_mode)||(ws_mode)||((kind == 'P')&&(head.size() < 5));
+      const bool oracle_only = (packet_mode)||(stress_mode)||(head[0] == "WC")||((kind == 'P')&&(head.size() < 5));   // WC: the client's masking keys are random
       DataIORef sref;
       if (stress_mode)
       {
@@ -464,6 +464,11 @@ static void run_case(int k, const std::string & line)
             const io_status_t r = sgw()->DoOutput(maxb);
             o << "o"; if (r.IsError()) o << "E"; else o << r.GetByteCount();
             o << ":" << hex(wio->_moved) << ":" << sgw()->GetOutgoingMessageQueue().GetNumItems() << "/";
+            if (ws_mode)
+            {
+               WebSocketMessageIOGateway * g = static_cast<WebSocketMessageIOGateway *>(sgw());
+               o << g->_outputBuf.GetNumBytes() << "/" << g->_outputBytesWritten;
+            }
             if (((kind == 'F')||(kind == 'P'))&&(!ws_mode))
             {
                MessageIOGateway * g = static_cast<MessageIOGateway *>(sgw());
@@ -498,6 +503,13 @@ static void run_case(int k, const std::string & line)
             MessageRef m;
             while(recv.RemoveHead(m).IsOK()) {o << show_msg(kind, m); items_of(kind, m, got);}
             o << ":";
+            if (ws_mode)
+            {
+               WebSocketMessageIOGateway * g = static_cast<WebSocketMessageIOGateway *>(rgw());
+               o << g->_headerBytesReceived << "/" << g->_headerSize << "/";
+               if (g->_payload()) o << g->_payload()->GetNumBytes(); else o << "-";
+               o << "/" << g->_payloadBytesRead << "/" << (int) g->_opCode << "/" << (g->_inputClosed ? 1 : 0) << "/" << (g->GetUnrecoverableErrorStatus().IsError() ? 1 : 0);
+            }
             if (((kind == 'F')||(kind == 'P'))&&(!ws_mode))
             {
                MessageIOGateway * g = static_cast<MessageIOGateway *>(rgw());
